@@ -1832,3 +1832,14 @@ Proof.
     rewrite iter_fix by (vm_compute; reflexivity). vm_compute. reflexivity.
   - repeat split; vm_compute; reflexivity.
 Qed.
+
+(** AddPolicy / UpdatePolicy are a Run with the pod informer started: the same guarantees *)
+Theorem policy_added_written H host c k m :
+  galaxy_written H host k -> hash_distinct H host c = true -> partial_pre H host c k = true ->
+  exists m' k', on_policy_added H host c (m, k) = (m', k', true) /\ glx_exact H host c k' = true /\
+    foreign_same k k' = true /\ galaxy_written H host k'.
+Proof.
+  intros Hw Hd Hp. unfold on_policy_added. cbn [fst snd].
+  destruct (run_written H host c k (mkMgr (m_pols m) true) Hw Hd Hp) as [m' [k' [R [E [F [W _]]]]]].
+  exists m', k'. tauto.
+Qed.
